@@ -9,7 +9,7 @@ from typing import Dict, List, Optional, Set, Tuple
 from jinja2 import nodes as N
 
 from ..core import AnalysisError, RuleSpec
-from ..jmodel import JModel, sym
+from ..jmodel import JModel, sym, string_alternatives
 from ..pymodel import call_name
 from .. import astq
 from .. import tables
@@ -481,7 +481,6 @@ EMPTY_BY_CONSTRUCTION = {
 
 
 # ------------------------------------------------------------------------------ R2
-_ANCH = re.compile(r"'\.\./\{\}#\{\}'\.format\((?P<url>.+?), (?P<anchor>.+)\) if (?P<cu>.+?) else '\.\./\{\}'\.format")
 
 
 def r2_anchors(ctx, rep):
@@ -498,13 +497,27 @@ def r2_anchors(ctx, rep):
         for o in outs:
             if o.ctx != ("attr", "href"):
                 continue
-            m = _ANCH.search(o.sym)
-            if not m:
+            # the string structure of the href, however it is composed: '<..>' + <page url> + '#' + <anchor expression>
+            objs = {obj_value(py, c) for c in PAGE_PAYLOAD_CLASSES[pcls]}
+            def decide(test: str):
+                m = re.fullmatch(r"\(?%s\.obj (==|!=) '(\w+)'\)?" % re.escape(key), test.strip())
+                if m and len(objs) == 1 and None not in objs:
+                    return (next(iter(objs)) == m.group(2)) == (m.group(1) == "==")
+                return None
+            pairs = []
+            for alt in (string_alternatives(o.sym, decide=decide) or []):
+                hashes = [i for i, (k, v) in enumerate(alt) if k == "lit" and "#" in v]
+                if len(hashes) == 1 and hashes[0] + 1 < len(alt):
+                    i = hashes[0]
+                    us = [v for k, v in alt[:i] if k == "expr"]
+                    an = [v for k, v in alt[i + 1:] if k == "expr"]
+                    if us and an:
+                        pairs.append((us[-1], " ".join(an)))
+            pairs = [(u, a) for u, a in pairs if u.startswith(f"{key}.get_url()")]      # own-page links only
+            if not pairs:
                 continue
-            url, anchor = m.group("url"), m.group("anchor")
-            # own-page links only
-            if not url.startswith(f"{key}.get_url()"):
-                continue
+            url = pairs[0][0]
+            anchor = " ".join(a for _u, a in pairs)
             cm = re.search(re.escape(key) + r"\.(\w+)\[\*\]", anchor) or \
                 re.search(r"\[" + re.escape(key) + r"\.(\w+)\]", anchor)
             am = re.findall(r"([\w.\[\]*]+\.anchor)", anchor)
@@ -838,7 +851,7 @@ def obj_value(py, cls: str) -> Optional[str]:
 def r6_graph_urls(ctx, rep):
     """graph node URLs (and entity links) only for visible entities."""
     py = ctx.py
-    fn = py.func("BaseNode.__init__")
+    fn = py.ifunc("BaseNode.__init__")      # canonical form: a guard hoisted into a named local reads like the inline test
     found = False
     for a in ast.walk(fn):
         if isinstance(a, ast.Assign) and any(
